@@ -1,6 +1,7 @@
 // C12 -- edit distance == reference recurrence `dist`; operations() is a sorted script of that length
 use vstd::prelude::*;
 verus! {
+//@include specs/std_extra.rs
 //@include specs/err.rs
 //@include specs/chars.rs
 
